@@ -3,6 +3,7 @@ CONSTANTS
   Clients <- E1Clients
   Reqs <- E1Reqs
   Bg = "bg"
+  Pool <- NoPool
   Handoff = TRUE
   NotifyOnEof = TRUE
 INVARIANT FailOnlyWhenGone
